@@ -7,6 +7,7 @@ import (
 	"strconv"
 	"strings"
 	"sync"
+	"sync/atomic"
 	"time"
 
 	"filippo.io/edwards25519"
@@ -62,6 +63,10 @@ func C18(c *Ctx) {
 	var start, wg sync.WaitGroup
 	start.Add(1)
 	outA := make([][]byte, G)
+	// the order in which the goroutines get through their first call is an observable of the
+	// schedule: the controller counts distinct orders over all processes
+	var finishSeq int64
+	finishRank := make([]int64, G)
 	for g := 0; g < G; g++ {
 		wg.Add(1)
 		go func(g int) {
@@ -77,6 +82,7 @@ func C18(c *Ctx) {
 				p.VarTimeDoubleScalarBaseMult(libK, libA, libK)
 			}
 			outA[g] = p.Bytes()
+			finishRank[g] = atomic.AddInt64(&finishSeq, 1)
 		}(g)
 	}
 	if seqRef {
@@ -106,6 +112,15 @@ func C18(c *Ctx) {
 		if string(outA[g]) != string(want) {
 			c.Fail("concurrent first-use call returned a wrong result", map[string]any{"goroutine": g, "goroutines": G, "kind": g % 2, "got": hx(outA[g]), "want": hx(want), "delays": delays})
 		}
+	}
+	if !seqRef {
+		order := make([]byte, G)
+		for g := 0; g < G; g++ {
+			if r := finishRank[g]; r >= 1 && int(r) <= G {
+				order[r-1] = byte(g)
+			}
+		}
+		c.Res.Extra["first-use completion order"] = fmt.Sprintf("G=%d:%x", G, order)
 	}
 	cA := countsSnapshot()
 	// warm per-call costs, same scalar
